@@ -27,5 +27,4 @@ def run(tier, seed, t0):
 
 
 def replay(path):
-    print("C19 cases are deterministic; re-run ./vcheck C19 (the replay file holds the configuration text)")
-    sys.exit(2)
+    vlib.replay_enum(PID, build(), path, env={"VERIF_REPO": vlib.REPO})
